@@ -25,11 +25,14 @@ from . import asm_x86, oracle, repo
 
 LEVEL = "other"
 MANIFEST = {
-    "text": "decides D1 (all checked-in .S files regenerate byte-identically from tools/), D2 (no object "
-            "assembled from the library's .S units lacks a non-executable .note.GNU-stack), D3 (x86-64: "
-            "stack balance, callee-saved registers, memory footprint confined to the argument objects and the "
-            "own frame, on every path, for every share configuration) and D4 (x86-64 jump table and round "
-            "constants); functional correctness of the 12 ISAs and the ABI of the non-x86 files are not decided",
+    "text": "decides D1 (all checked-in .S files regenerate byte-identically from tools/), D2 (non-executable "
+            ".note.GNU-stack on every assembly object), D3 (x86-64: stack balance, callee-saved registers, memory "
+            "footprint, every path, every share configuration), D4 (x86-64 jump table and round constants), D4i "
+            "(i386: every first_round value reaches the block of that round, blocks in order with the "
+            "specification's constants) and D5 (x86-64 ascon_permute: every round block is the specification's "
+            "round as a polynomial identity over GF(2) in the 320 state bits, prologue and epilogue are inverse "
+            "mappings, so ascon_permute(first_round) is rounds first_round..11 for every state; the masked x86-64 "
+            "permutations are proved under C10.D5); functional correctness of the other ISAs is not decided",
     "note": "D1 executes the generator programs (code generators, not code under verification) exactly as "
             "`make generate` does and compares text; D2 inspects assembler output with llvm-readelf; D3/D4 "
             "trust the AT&T-syntax model of the ~30 instruction forms the generators emit (anything else is "
